@@ -333,7 +333,8 @@ SelSound == sel # NoSel => /\ auth # None /\ sel.m # None /\ sel.mode # None
                            /\ (closed \/ sel.m # "Box" \/ "Box" \in boxes)
 ByeCloses == last \in {"BYE.OK", "BYE.BAD", "BYE", "NONE"} => closed
 
-IsRefusal(r) == r \in {"NO", "BAD", "+NO", "+BAD"}
+\* "BYE.BAD": the BAD completion that reaches the bad-command limit (BYE, then the BAD)
+IsRefusal(r) == r \in {"NO", "BAD", "+NO", "+BAD", "BYE.BAD"}
 
 \* The remaining clauses are step properties, stated per input.
 
